@@ -371,3 +371,147 @@ Proof.
   destruct (existsb (unmet_now s) l) eqn:Ex; [|discriminate].
   apply existsb_exists in Ex as (r & Hr & Hu). exists l, r. repeat split; auto. apply unmet_now_reflect; assumption.
 Qed.
+
+(* ---------------------------------------------------------------- exactness: the gate rejects nothing that is safe *)
+Record Inv2 (s : state) : Prop := {
+  inv2_body_kind : forall f cs, body_of s f = Some cs -> find_fn s f <> None \/ exists l, fw s f = Some (true, l);
+  inv2_fn_src : forall f l, find_fn s f = Some l -> forall r, In r l ->
+                exists cs c lc, body_of s f = Some cs /\ In c cs /\ reqs_of s c = Some lc /\ In r lc;
+  inv2_impl_src : forall f l, fw s f = Some (true, l) -> forall r, In r l ->
+                exists cs c lc, body_of s f = Some cs /\ In c cs /\ reqs_of s c = Some lc /\ In r lc
+}.
+
+Theorem unmet_is_unsafe s : Inv s -> Inv2 s -> forall f l, reqs_of s f = Some l -> forall r, In r l -> Unmet s r -> ~ Safe s f.
+Proof.
+  intros HI H2 f. induction f as [f IH] using lt_wf_ind. intros l Hl r Hr Hu Hsafe.
+  inversion Hsafe as [? cs Hb Hall]; subst.
+  (* every unmet requirement of f comes from a callee that carries it *)
+  assert (Hsrc : exists c lc, In c cs /\ reqs_of s c = Some lc /\ exists r0, In r0 lc /\ Unmet s r0).
+  { rewrite reqs_of_fw in Hl. destruct (fw s f) as [[b li]|] eqn:Ef.
+    - inversion Hl; subst. destruct Hr as [<-|[]].
+      inversion Hu as [? H0|? ? H0|? l0 r' H0 Hin Hu']; subst; rewrite Ef in H0; try discriminate.
+      + inversion H0; subst. destruct (inv2_body_kind s H2 f cs Hb) as [Hk|[l1 Hk]].
+        * rewrite (inv_disjoint s HI f) in Hk by congruence. congruence.
+        * congruence.
+      + inversion H0; subst. destruct (inv2_impl_src s H2 f l0 Ef r' Hin) as (cs' & c & lc & Hb' & Hc & Hlc & Hrc).
+        rewrite Hb in Hb'. inversion Hb'; subst. eauto 8.
+    - destruct (inv2_fn_src s H2 f l Hl r Hr) as (cs' & c & lc & Hb' & Hc & Hlc & Hrc).
+      rewrite Hb in Hb'. inversion Hb'; subst. eauto 8. }
+  destruct Hsrc as (c & lc & Hc & Hlc & r0 & Hr0 & Hu0).
+  destruct (inv_body s HI f cs Hb c Hc) as [Hlt _].
+  exact (IH c Hlt lc Hlc r0 Hr0 Hu0 (Hall c Hc)).
+Qed.
+
+Lemma inv2_empty : Inv2 empty.
+Proof. constructor; unfold fw, find_fwd, find_fn, body_of; cbn; discriminate. Qed.
+
+Lemma reqs_stable_fwd s g c : find_fwd s g = None -> find_fn s g = None -> declared s c -> reqs_of (s_fwd s g) c = reqs_of s c.
+Proof.
+  intros Hg Hgn Hc. rewrite !reqs_of_fw, (fw_s_fwd s g c Hg). change (find_fn (s_fwd s g) c) with (find_fn s c).
+  destruct (Nat.eqb_spec c g) as [E|Hne]; [|reflexivity]. exfalso. rewrite E in Hc.
+  apply declared_dec in Hc as [H|H]; [apply fw_none in Hg; congruence|congruence].
+Qed.
+
+Lemma inv2_s_fwd s g : Inv s -> Inv2 s -> find_fwd s g = None -> find_fn s g = None -> Inv2 (s_fwd s g).
+Proof.
+  intros HI H2 Hg Hgn.
+  assert (Hfw := fun x => fw_s_fwd s g x Hg).
+  assert (Hdeclared : forall c lc, reqs_of s c = Some lc -> reqs_of (s_fwd s g) c = Some lc).
+  { intros c lc H. rewrite reqs_stable_fwd; auto. unfold declared. congruence. }
+  constructor.
+  - intros f cs Hb. change (body_of (s_fwd s g) f) with (body_of s f) in Hb. change (find_fn (s_fwd s g) f) with (find_fn s f).
+    destruct (inv2_body_kind s H2 f cs Hb) as [H|[l H]]; [left; exact H|right]. exists l. rewrite Hfw.
+    destruct (Nat.eqb_spec f g) as [E|Hne]; [|exact H]. rewrite E in H. apply fw_none in Hg. congruence.
+  - intros f l Hf r Hr. change (find_fn (s_fwd s g) f) with (find_fn s f) in Hf.
+    destruct (inv2_fn_src s H2 f l Hf r Hr) as (cs & c & lc & Hb & Hc & Hlc & Hrc). exists cs, c, lc. repeat split; auto.
+  - intros f l Hf r Hr. rewrite Hfw in Hf. destruct (Nat.eqb f g); [discriminate|].
+    destruct (inv2_impl_src s H2 f l Hf r Hr) as (cs & c & lc & Hb & Hc & Hlc & Hrc). exists cs, c, lc. repeat split; auto.
+Qed.
+
+Lemma inv2_s_plain s f cs : Inv s -> Inv2 s -> fw s f = None -> find_fn s f = None ->
+  (forall c, In c cs -> c < f /\ declared s c) -> Inv2 (s_plain s f (recorded s cs) cs).
+Proof.
+  intros HI H2 Hf Hfnone Hcs. set (s' := s_plain s f (recorded s cs) cs).
+  assert (Hfw : forall x, fw s' x = fw s x) by reflexivity.
+  assert (Hfn := fn_cons s f (recorded s cs) cs).
+  assert (Hbd : forall x, body_of s' x = if Nat.eqb x f then Some cs else body_of s x).
+  { intros x. unfold body_of, s', s_plain. cbn [bodies]. apply body_cons. }
+  assert (Hundecl : ~ declared s f) by (rewrite declared_dec; intros [H|H]; congruence).
+  assert (Hreq : forall c lc, reqs_of s c = Some lc -> reqs_of s' c = Some lc).
+  { intros c lc H. rewrite reqs_of_fw, Hfw, Hfn. destruct (Nat.eqb_spec c f) as [E|Hne].
+    - exfalso. apply Hundecl. rewrite <- E. unfold declared. congruence.
+    - rewrite <- reqs_of_fw. exact H. }
+  constructor.
+  - intros f0 cs0 Hb. rewrite Hbd in Hb. rewrite Hfn, Hfw. destruct (Nat.eqb_spec f0 f) as [E|Hne]; [left; discriminate|].
+    apply (inv2_body_kind s H2 f0 cs0 Hb).
+  - intros f0 l Hl r Hr. rewrite Hfn in Hl. destruct (Nat.eqb_spec f0 f) as [E|Hne].
+    + inversion Hl; subst. destruct (in_recorded s cs r HI Hr) as (_ & c & lc & Hc & Hlc & Hrc).
+      exists cs, c, lc. rewrite Hbd, Nat.eqb_refl. repeat split; auto.
+    + destruct (inv2_fn_src s H2 f0 l Hl r Hr) as (cs0 & c & lc & Hb & Hc & Hlc & Hrc). exists cs0, c, lc.
+      rewrite Hbd. destruct (Nat.eqb_spec f0 f); [contradiction|]. repeat split; auto.
+  - intros f0 l Hl r Hr. rewrite Hfw in Hl.
+    destruct (inv2_impl_src s H2 f0 l Hl r Hr) as (cs0 & c & lc & Hb & Hc & Hlc & Hrc). exists cs0, c, lc.
+    rewrite Hbd. destruct (Nat.eqb_spec f0 f) as [E|Hne]; [rewrite E in Hl; congruence|]. repeat split; auto.
+Qed.
+
+Lemma inv2_s_ful s f cs e0 : Inv s -> Inv2 s -> find_fwd s f = Some e0 -> fulfilled e0 = false ->
+  (forall c, In c cs -> c < f /\ declared s c) -> Inv2 (s_ful s f (recorded s cs) cs).
+Proof.
+  intros HI H2 Hf Hpend Hcs. set (s' := s_ful s f (recorded s cs) cs).
+  assert (Hfw := fun x => fw_s_ful s f (recorded s cs) cs x e0 Hf).
+  assert (Hbd : forall x, body_of s' x = if Nat.eqb x f then Some cs else body_of s x).
+  { intros x. unfold body_of, s', s_ful. cbn [bodies]. apply body_cons. }
+  assert (Hfwf : fw s f = Some (false, impl_reqs e0)) by (unfold fw; rewrite Hf, Hpend; reflexivity).
+  assert (Hreq : forall c, reqs_of s' c = reqs_of s c).
+  { intros c. rewrite !reqs_of_fw. unfold s' at 1. rewrite Hfw. change (find_fn s' c) with (find_fn s c).
+    destruct (Nat.eqb_spec c f) as [E|Hne]; [rewrite E, Hfwf; reflexivity|reflexivity]. }
+  constructor.
+  - intros f0 cs0 Hb. rewrite Hbd in Hb. change (find_fn s' f0) with (find_fn s f0). unfold s'. rewrite Hfw.
+    destruct (Nat.eqb_spec f0 f) as [E|Hne]; [right; eauto|]. apply (inv2_body_kind s H2 f0 cs0 Hb).
+  - intros f0 l Hl r Hr. change (find_fn s' f0) with (find_fn s f0) in Hl.
+    destruct (inv2_fn_src s H2 f0 l Hl r Hr) as (cs0 & c & lc & Hb & Hc & Hlc & Hrc). exists cs0, c, lc.
+    rewrite Hbd, Hreq. destruct (Nat.eqb_spec f0 f) as [E|Hne]; [|repeat split; auto].
+    exfalso. rewrite E in Hl. rewrite (inv_disjoint s HI f) in Hl by congruence. discriminate.
+  - intros f0 l Hl r Hr. unfold s' in Hl. rewrite Hfw in Hl. destruct (Nat.eqb_spec f0 f) as [E|Hne].
+    + inversion Hl; subst. destruct (in_recorded s cs r HI Hr) as (_ & c & lc & Hc & Hlc & Hrc).
+      exists cs, c, lc. rewrite Hbd, Nat.eqb_refl, Hreq. repeat split; auto.
+    + destruct (inv2_impl_src s H2 f0 l Hl r Hr) as (cs0 & c & lc & Hb & Hc & Hlc & Hrc). exists cs0, c, lc.
+      rewrite Hbd, Hreq. destruct (Nat.eqb_spec f0 f); [contradiction|]. repeat split; auto.
+Qed.
+
+Lemma step_inv2 s e s' : Inv s -> Inv2 s -> wf_event e -> step s e = Ok s' -> Inv2 s'.
+Proof.
+  intros HI H2 Hwf H. destruct e as [g|f cs|f]; cbn [step] in H.
+  - destruct (reqs_of s g) eqn:E; [discriminate|]. inversion H; subst.
+    unfold reqs_of in E. destruct (find_fwd s g) eqn:Eg; [discriminate|].
+    apply (inv2_s_fwd s g HI H2 Eg E).
+  - destruct (forallb (fun c => match reqs_of s c with Some _ => true | None => false end) cs) eqn:Ed; [|discriminate].
+    assert (Hcs : forall c, In c cs -> c < f /\ declared s c).
+    { intros c Hc. split; [apply Hwf; exact Hc|]. rewrite forallb_forall in Ed. specialize (Ed c Hc). unfold declared.
+      destruct (reqs_of s c); [discriminate|discriminate]. }
+    destruct (find_fwd s f) as [e0|] eqn:Ef.
+    + destruct (fulfilled e0) eqn:Eful; [discriminate|]. inversion H; subst.
+      exact (inv2_s_ful s f cs e0 HI H2 Ef Eful Hcs).
+    + destruct (find_fn s f) eqn:Efn; [discriminate|]. inversion H; subst.
+      apply (inv2_s_plain s f cs HI H2); [apply fw_none; exact Ef|exact Efn|exact Hcs].
+  - destruct (reqs_of s f); [|discriminate]. destruct (existsb (unmet_now s) l); [discriminate|]. inversion H; subst. exact H2.
+Qed.
+
+Lemma run_inv_both : forall es s0 s, Inv s0 -> Inv2 s0 -> Forall wf_event es -> run s0 es = Ok s -> Inv s /\ Inv2 s.
+Proof.
+  induction es as [|e es IH]; intros s0 s HI H2 HF H; cbn [run] in H.
+  - inversion H; subst. split; assumption.
+  - inversion HF as [|? ? He Hes]; subst. destruct (step s0 e) as [s1| | |] eqn:E; try discriminate.
+    apply (IH s1 s); [eapply step_inv; eauto|eapply step_inv2; eauto|exact Hes|exact H].
+Qed.
+
+(* THE THEOREM, other direction: an invocation the gate rejects is not safe *)
+Theorem gate_exact : forall es s f, Forall wf_event es -> run empty es = Ok s ->
+  step s (Use f) = MissingForward -> safe_now s f = false /\ ~ Safe s f.
+Proof.
+  intros es s f HF Hrun Hstep. destruct (run_inv_both es empty s inv_empty inv2_empty HF Hrun) as [HI H2].
+  destruct (gate_rejects_unmet es s f HF Hrun Hstep) as (l & r & Hl & Hr & Hu).
+  assert (Hns : ~ Safe s f) by (eapply unmet_is_unsafe; eauto).
+  split; [|exact Hns]. destruct (safe_now s f) eqn:E; [|reflexivity]. exfalso. apply Hns.
+  unfold safe_now in E. apply (safe_reflect s HI (S f) f); [lia|exact E].
+Qed.
